@@ -677,8 +677,9 @@ def copy_propagate(fn):
     that could change the field is made, so the rewrite is an identity on behaviour; it lets rules that follow a field (by name, at the
     time it is read) see through a local that a refactoring introduced.  Statements that are not rewritten keep their identity."""
     # cached on the function node itself (an id()-keyed table would be poisoned when a later Program re-uses the address of a freed node)
-    if getattr(fn, '_sa_copyprop', None) is not None:
-        return fn._sa_copyprop
+    cached = getattr(fn, '_sa_copyprop', None)
+    if cached is not None and cached[0] is fn.body:        # (a shallow copy of the node with another body does not inherit the entry)
+        return cached[1]
     import copy
     params = {a.arg for a in fn.args.args + fn.args.kwonlyargs}
 
@@ -796,7 +797,7 @@ def copy_propagate(fn):
                 active[st.value.id] = st.targets[0]
         return out
     res = block(fn.body, {})
-    fn._sa_copyprop = res
+    fn._sa_copyprop = (fn.body, res)
     return res
 
 
